@@ -142,9 +142,31 @@ pub fn decode(c: Class, b: &[u8]) -> Option<CVal> {
         }
         Class::Mac => CVal::Mac(format!("{:02X}:{:02X}:{:02X}:{:02X}:{:02X}:{:02X}", b[0], b[1], b[2], b[3], b[4], b[5])),
         Class::Vec => CVal::Bytes(b.to_vec()),
-        Class::Proto => CVal::Proto(b[0]),
+        Class::Proto => CVal::Proto(iana_name(b[0]).to_string()),
         Class::Unknown => CVal::Bytes(b.to_vec()),
     })
+}
+
+// ------------------------------------------------------------------------------------------------ defect models
+
+/// Executable models of the *recorded* defects (known_findings.json).  With `on == false` the reference is the
+/// pure specification.  With `on == true` it reproduces each recorded defect and notes which ones changed the
+/// expectation (`fired`), so that a check can still demand the strongest relation that holds under them.
+#[derive(Default, Clone, Debug)]
+pub struct Q {
+    pub on: bool,
+    pub fired: std::collections::BTreeSet<&'static str>,
+}
+impl Q {
+    pub fn pure() -> Q {
+        Q { on: false, fired: Default::default() }
+    }
+    pub fn quirky() -> Q {
+        Q { on: true, fired: Default::default() }
+    }
+    fn fire(&mut self, s: &'static str) {
+        self.fired.insert(s);
+    }
 }
 
 // ------------------------------------------------------------------------------------------------ cache
@@ -290,7 +312,7 @@ fn v9_opt_records(scope: &[FieldSpec], opts: &[FieldSpec], body: &[u8]) -> Resul
 
 /// Decode one V9 export packet at the start of `b`.  The packet extends over at most `count` flowsets
 /// (the library's and C11's reading of the count field) or to the end of the buffer.
-pub fn ref_v9(b: &[u8], cache: &mut RefCache) -> Result<(CVar, usize), RefStop> {
+pub fn ref_v9(b: &[u8], cache: &mut RefCache, q: &mut Q) -> Result<(CVar, usize), RefStop> {
     if b.len() < 20 {
         return Err(RefStop::Truncated);
     }
@@ -372,7 +394,18 @@ pub fn ref_v9(b: &[u8], cache: &mut RefCache) -> Result<(CVar, usize), RefStop> 
                     CBody::Data(flat, Some(n), pad)
                 }
                 Some(RefTpl::V9Opt(s, op)) => {
-                    let (flat, n, pad) = v9_opt_records(s, op, body)?;
+                    let (mut flat, mut n, mut pad) = v9_opt_records(s, op, body)?;
+                    if n == 0 {
+                        return nc("options data flowset without a record");
+                    }
+                    if q.on && n > 1 {
+                        // recorded defect: the structure holds one record; the others are left in the padding
+                        q.fire("v9/options-data/records>1");
+                        let rs: usize = s.iter().chain(op.iter()).map(|f| f.len as usize).sum();
+                        flat.truncate(s.len() + op.len());
+                        n = 1;
+                        pad = body[rs..].to_vec();
+                    }
                     CBody::OptData(flat, Some(n), pad)
                 }
                 Some(RefTpl::IpfixOpt(..)) => return nc("internal: ipfix template in v9 cache"),
@@ -454,10 +487,37 @@ pub fn ipfix_record(fields: &[FieldSpec], b: &[u8]) -> Result<Option<(Vec<CField
     Ok(Some((out, o)))
 }
 
-fn ipfix_records(fields: &[FieldSpec], body: &[u8]) -> Result<(Vec<CField>, usize, Vec<u8>), RefStop> {
+/// Some(..) = decoded; None = (defect model only) the whole set is undecodable
+fn ipfix_records(fields: &[FieldSpec], body: &[u8], q: &mut Q) -> Result<Option<(Vec<CField>, usize, Vec<u8>)>, RefStop> {
     let min = ipfix_min_record(fields);
     if min == 0 || fields.is_empty() {
         return nc("ipfix template whose minimal record length is 0");
+    }
+    if q.on {
+        // recorded defect: the record loop continues iff the bytes left are at least the size of the record
+        // just decoded, and a record that then fails to decode makes the whole set undecodable
+        let pure = ipfix_records(fields, body, &mut Q::pure()).ok().flatten();
+        let mut o = 0;
+        let mut flat = vec![];
+        let mut n = 0;
+        let model = loop {
+            match ipfix_record(fields, &body[o..])? {
+                Some((f, used)) => {
+                    flat.extend(trunc_signed(f, q));
+                    o += used;
+                    n += 1;
+                    if body.len() - o < used {
+                        break Some((flat, n, body[o..].to_vec()));
+                    }
+                }
+                None => break None,
+            }
+        };
+        let pure_t = pure.map(|(f, n, p)| (trunc_signed(f, &mut Q::quirky()), n, p));
+        if model != pure_t {
+            q.fire("ipfix/data/record-loop-termination");
+        }
+        return Ok(model);
     }
     let mut o = 0;
     let mut flat = vec![];
@@ -472,7 +532,52 @@ fn ipfix_records(fields: &[FieldSpec], body: &[u8]) -> Result<(Vec<CField>, usiz
             None => return nc("data set ends inside a record"),
         }
     }
-    Ok((flat, n, body[o..].to_vec()))
+    if n == 0 {
+        return nc("data set without a record");
+    }
+    Ok(Some((flat, n, body[o..].to_vec())))
+}
+
+/// recorded defect: signed values wider than 32 bits are truncated to their low 32 bits
+fn trunc_signed(f: Vec<CField>, q: &mut Q) -> Vec<CField> {
+    f.into_iter()
+        .map(|(k, n, v)| match v {
+            CVal::S(x) if x > i32::MAX as i128 || x < i32::MIN as i128 => {
+                q.fire("ipfix/data/signed-wider-than-32-bits");
+                (k, n, CVal::S((x as i64) as i32 as i128))
+            }
+            v => (k, n, v),
+        })
+        .collect()
+}
+
+/// recorded defect: a template set is parsed as ONE record whose field list runs greedily to the end of the set
+fn quirk_ipfix_template_set(body: &[u8]) -> Option<(u16, u16, Vec<FieldSpec>, Vec<u8>)> {
+    if body.len() < 4 {
+        return None;
+    }
+    let tid = r16(body, 0);
+    let cnt = r16(body, 2);
+    let mut o = 4;
+    let mut fields = vec![];
+    loop {
+        if body.len() < o + 4 {
+            break;
+        }
+        let ty = r16(body, o);
+        let len = r16(body, o + 2);
+        if ty & 0x8000 != 0 {
+            if body.len() < o + 8 {
+                break;
+            }
+            fields.push(FieldSpec { ty: ty & 0x7fff, len, pen: Some(r32(body, o + 4)) });
+            o += 8;
+        } else {
+            fields.push(FieldSpec { ty, len, pen: None });
+            o += 4;
+        }
+    }
+    Some((tid, cnt, fields, body[o..].to_vec()))
 }
 
 /// What the reference says about every set of a message, including the ones that cannot be decoded.
@@ -483,7 +588,7 @@ pub enum RefSet {
     UnknownTemplate(u16),
 }
 
-pub fn ref_ipfix_sets(b: &[u8], cache: &mut RefCache) -> Result<(Vec<u64>, Vec<RefSet>, usize), RefStop> {
+pub fn ref_ipfix_sets(b: &[u8], cache: &mut RefCache, q: &mut Q) -> Result<(Vec<u64>, Vec<RefSet>, usize), RefStop> {
     if b.len() < 16 {
         return Err(RefStop::Truncated);
     }
@@ -508,6 +613,22 @@ pub fn ref_ipfix_sets(b: &[u8], cache: &mut RefCache) -> Result<(Vec<u64>, Vec<R
         }
         let body = &b[o + 4..o + len];
         let rs = match id {
+            2 if q.on => {
+                let pure = {
+                    let mut c2 = cache.clone();
+                    ref_ipfix_sets_one_template_set(body, &mut c2)?
+                };
+                let (tid, cnt, fields, pad) = quirk_ipfix_template_set(body).ok_or(RefStop::NonConformant("template set shorter than a record header".into()))?;
+                let model = CBody::Tpl(vec![CTpl::Plain(tid, cnt, fields.iter().map(ctf_ipfix).collect())], pad);
+                if model != pure {
+                    q.fire("ipfix/template-set/records>1");
+                }
+                if !fields.iter().any(|f| f.len > 0) {
+                    return nc("template without a non-zero-length field");
+                }
+                cache.ipfix.insert(tid, RefTpl::Plain(fields));
+                RefSet::Decoded(CSet { id, len: len as u16, body: model })
+            }
             2 => {
                 let mut r = body;
                 let mut ts = vec![];
@@ -538,31 +659,65 @@ pub fn ref_ipfix_sets(b: &[u8], cache: &mut RefCache) -> Result<(Vec<u64>, Vec<R
                     ts.push(CTpl::IpfixOpt(tid, cnt as u16, sc, fields.iter().map(ctf_ipfix).collect()));
                     cache.ipfix.insert(tid, RefTpl::IpfixOpt(sc, fields));
                     r = &r[6 + used..];
+                    if q.on {
+                        // recorded defect: only the first options template record of a set is decoded; the
+                        // rest of the set is kept as padding
+                        if r.len() >= 6 {
+                            q.fire("ipfix/options-template-set/records>1");
+                        }
+                        break;
+                    }
                 }
                 RefSet::Decoded(CSet { id, len: len as u16, body: CBody::OptTpl(ts, r.to_vec()) })
             }
             0..=255 => return nc("reserved set id"),
             _ => match cache.ipfix.get(&id) {
                 None => RefSet::UnknownTemplate(id),
-                Some(RefTpl::Plain(f)) => {
-                    let (flat, n, pad) = ipfix_records(f, body)?;
-                    RefSet::Decoded(CSet { id, len: len as u16, body: CBody::Data(flat, Some(n), pad) })
-                }
-                Some(RefTpl::IpfixOpt(_, f)) => {
-                    let (flat, n, pad) = ipfix_records(f, body)?;
-                    RefSet::Decoded(CSet { id, len: len as u16, body: CBody::OptData(flat, Some(n), pad) })
-                }
+                Some(RefTpl::Plain(f)) => match ipfix_records(f, body, q)? {
+                    Some((flat, n, pad)) => RefSet::Decoded(CSet { id, len: len as u16, body: CBody::Data(flat, Some(n), pad) }),
+                    None => RefSet::UnknownTemplate(id),
+                },
+                Some(RefTpl::IpfixOpt(_, f)) => match ipfix_records(f, body, q)? {
+                    Some((flat, n, pad)) => RefSet::Decoded(CSet { id, len: len as u16, body: CBody::OptData(flat, Some(n), pad) }),
+                    None => RefSet::UnknownTemplate(id),
+                },
                 Some(RefTpl::V9Opt(..)) => return nc("internal: v9 template in ipfix cache"),
             },
         };
+        let undecodable = matches!(rs, RefSet::UnknownTemplate(_));
         sets.push(rs);
         o += len;
+        if q.on && undecodable {
+            // recorded defect: nothing after an undecodable set is reported
+            if o < length {
+                q.fire("ipfix/sets-after-undecodable-set");
+            }
+            break;
+        }
     }
     Ok((hdr, sets, length))
 }
 
-pub fn ref_ipfix(b: &[u8], cache: &mut RefCache) -> Result<(CVar, usize), RefStop> {
-    let (hdr, sets, used) = ref_ipfix_sets(b, cache)?;
+/// pure decoding of one template-set body (helper for the defect model's comparison)
+fn ref_ipfix_sets_one_template_set(body: &[u8], cache: &mut RefCache) -> Result<CBody, RefStop> {
+    let mut r = body;
+    let mut ts = vec![];
+    while r.len() >= 4 {
+        let tid = r16(r, 0);
+        let cnt = r16(r, 2) as usize;
+        let (fields, used) = match ipfix_fieldspecs(&r[4..], cnt) {
+            Some(x) => x,
+            None => return nc("template record incomplete"),
+        };
+        ts.push(CTpl::Plain(tid, cnt as u16, fields.iter().map(ctf_ipfix).collect()));
+        cache.ipfix.insert(tid, RefTpl::Plain(fields));
+        r = &r[4 + used..];
+    }
+    Ok(CBody::Tpl(ts, r.to_vec()))
+}
+
+pub fn ref_ipfix(b: &[u8], cache: &mut RefCache, q: &mut Q) -> Result<(CVar, usize), RefStop> {
+    let (hdr, sets, used) = ref_ipfix_sets(b, cache, q)?;
     let sets = sets
         .into_iter()
         .filter_map(|s| match s {
@@ -578,11 +733,11 @@ pub fn ref_ipfix(b: &[u8], cache: &mut RefCache) -> Result<(CVar, usize), RefSto
 /// Expected result of one `parse_bytes` call on a buffer made of conformant packets, with all of
 /// 5/7/9/10 allowed: the list of packets; an error element (kind, remaining) if the reference stops early.
 pub fn ref_buffer(b: &[u8], cache: &mut RefCache) -> Result<Vec<CPkt>, RefStop> {
-    ref_buffer_allowed(b, cache, &|v| matches!(v, 5 | 7 | 9 | 10))
+    ref_buffer_allowed(b, cache, &|v| matches!(v, 5 | 7 | 9 | 10), &mut Q::pure())
 }
 
 /// Same under an arbitrary allowed-version predicate: a version outside it ends the result silently.
-pub fn ref_buffer_allowed(b: &[u8], cache: &mut RefCache, allowed: &dyn Fn(u16) -> bool) -> Result<Vec<CPkt>, RefStop> {
+pub fn ref_buffer_allowed(b: &[u8], cache: &mut RefCache, allowed: &dyn Fn(u16) -> bool, q: &mut Q) -> Result<Vec<CPkt>, RefStop> {
     let mut o = 0;
     let mut out = vec![];
     while o < b.len() {
@@ -600,9 +755,9 @@ pub fn ref_buffer_allowed(b: &[u8], cache: &mut RefCache, allowed: &dyn Fn(u16) 
             9 => {
                 // a failing V9 packet must not leave half its templates in the reference cache? — the
                 // reference commits as it walks; only conformant streams reach here
-                ref_v9(rest, cache).map(|(p, n)| (CPkt::Var(p), n))
+                ref_v9(rest, cache, q).map(|(p, n)| (CPkt::Var(p), n))
             }
-            10 => ref_ipfix(rest, cache).map(|(p, n)| (CPkt::Var(p), n)),
+            10 => ref_ipfix(rest, cache, q).map(|(p, n)| (CPkt::Var(p), n)),
             _ => {
                 out.push(CPkt::Error("UnknownVersion".into(), rest.to_vec()));
                 break;
